@@ -109,6 +109,8 @@ type c04SelfL struct{}
 
 func (v c04SelfL) Interface() interface{} { return []interface{}{"x", v} }
 
+type c04HoldsMap struct{ Meta map[string]interface{} }
+
 type c04SelfI struct{}
 
 func (v c04SelfI) Interface() interface{} { return v }
@@ -132,6 +134,9 @@ func c04Ctx() *plush.Context {
 	ctx.Set("partialFeeder", func(name string) (string, error) {
 		if name == "ok" {
 			return "P<%= 1 %>", nil
+		}
+		if name == "layself" {
+			return "[<%= yield %>]<%= partial(\"ok\", {layout: \"layself\"}) %>", nil
 		}
 		if name == "selfp" {
 			return "s<%= partial(\"selfp\") %>", nil
@@ -273,6 +278,29 @@ func c04Run(b *core.B) {
 	} {
 		cell("self-containing", t)
 	}
+	// assignment into maps that are nil, of every shape a template meets (a variable, a field, a map's element)
+	for _, t := range []string{
+		"<% nilmsi[\"k\"] = \"v\" %>", "<% nilmsi[\"k\"] = nil %>", "<% holdm.Meta[\"k\"] = \"v\" %><%= holdm.Meta %>", "<% pholdm.Meta[\"k\"] = 1 %>", "<% mofm[\"none\"][\"k\"] = \"v\" %>",
+		"<% nilmss[\"k\"] = \"v\" %>", "<% nilmii[1] = 2 %>", "<% let m = holdm.Meta %><% m[\"a\"] = [1] %><%= m %>",
+	} {
+		idx++
+		if !b.Mine(idx) || !b.Begin("nil maps: "+t) {
+			continue
+		}
+		ctx := c04Ctx()
+		ctx.Set("nilmsi", map[string]interface{}(nil))
+		ctx.Set("nilmss", map[string]string(nil))
+		ctx.Set("nilmii", map[int]int(nil))
+		ctx.Set("holdm", c04HoldsMap{})
+		ctx.Set("pholdm", &c04HoldsMap{})
+		ctx.Set("mofm", map[string]map[string]interface{}{"none": nil})
+		r := renderQuiet(t, ctx)
+		b.Count("assignments-into-nil-maps")
+		b.NonTrivialDistinct()
+		if r.Pan != nil {
+			b.Violate("nil-map-assignment/"+r.Pan.Sig(), "panic: "+r.Pan.Value)
+		}
+	}
 	// errors of the caller's own types: whatever the engine asks them (Error, Unwrap, Is, As) may panic
 	for _, t := range []string{
 		"<%= c_errNilEmbedded() %>", "<% c_errNilEmbedded() %>", "<%= if (true) { %><%= c_errNilEmbedded() %><% } %>", "<%= for (x) in [1] { %><%= c_errNilEmbedded() %><% } %>",
@@ -311,6 +339,8 @@ func c04Run(b *core.B) {
 		"<% contentFor(\"c\") { %>a<%= contentOf(\"c\") %><% } %><%= contentOf(\"c\") %>",
 		"<% contentFor(\"a\") { %><%= contentOf(\"b\") %><% } %><% contentFor(\"b\") { %><%= contentOf(\"a\") %><% } %><%= contentOf(\"a\") %>",
 		"<% contentFor(\"c\") { %><%= cap() { %><%= contentOf(\"c\") %><% } %><% } %><%= contentOf(\"c\") %>",
+		// a layout that, through a partial, is its own layout again
+		"<%= partial(\"ok\", {layout: \"layself\"}) %>",
 		// a block replayed by hand, the way helper packages other than the library's own do it
 		"<% contentFor(\"a\") { %>x<%= c_again() %><% } %><%= contentOf(\"a\") %>", "<%= c_keep() { %>y<%= c_replayKept() %><% } %><%= c_replayKept() %>",
 		// the same through partials and template functions, and with much between two calls
